@@ -240,8 +240,27 @@ pub fn init_single_process(prop: &'static dyn Prop) {
     worker_init(prop);
 }
 
+/// A logger as an application would install one: every record the library emits is formatted (so
+/// that the `Display`/`Debug` impls used in log statements run, possibly under a manager lock) and
+/// then discarded. Engine SEQ only.
+struct FormattingSink;
+impl log::Log for FormattingSink {
+    fn enabled(&self, _m: &log::Metadata) -> bool {
+        true
+    }
+    fn log(&self, record: &log::Record) {
+        let text = format!("{}", record.args());
+        std::hint::black_box(text.len());
+    }
+    fn flush(&self) {}
+}
+static SINK: FormattingSink = FormattingSink;
+
 fn worker_init(prop: &'static dyn Prop) {
     seams::install_panic_hook();
+    if prop.engine() == "seq" && log::set_logger(&SINK).is_ok() {
+        log::set_max_level(log::LevelFilter::Trace);
+    }
     seams::set_env_seed(0xC0FFEE);
     for (k, _) in std::env::vars() {
         if k.starts_with("SENTINEL_") {
